@@ -42,7 +42,7 @@ func init() { core.Register(c08{}) }
 func (c08) ID() string    { return "C08" }
 func (c08) Level() string { return "exploration" }
 func (c08) Rule() string {
-	return "interleaved programs (8-30 steps) over 2-4 uploads, two of them for the same key: create (metadata, tags, content headers), upload-part (1 B .. 5 MiB+1, re-upload of a number), upload-part-copy with every range form, list-parts and list-uploads (paged), complete with any subset / order / ETags (valid and five invalid classes), abort, object listing / GET while uploads are open; routed over 1-3 instances with restarts and request fragmentation; oracle: model of uploads and parts (object == concatenation in part-number order of the latest successful upload of each listed part, multipart ETag, initiation metadata; invalid completion => error and key unchanged; parts and uploads never listed as objects; uploads isolated; ids gone after complete / abort); distinct = (program shape: uploads, same-key, re-upload, copy-range form, completion validity class)"
+	return "interleaved programs (8-30 steps) over 2-4 uploads, two of them for the same key: create (metadata, tags, content headers), upload-part (1 B .. 5 MiB+1, re-upload of a number), upload-part-copy with every range form, list-parts and list-uploads (paged), complete with any subset / order / ETags (valid and five invalid classes), abort, object listing / GET while uploads are open; routed over 1-3 instances with restarts and request fragmentation; oracle: model of uploads and parts (object == concatenation in part-number order of the latest successful upload of each listed part, multipart ETag, initiation metadata; invalid completion => error and key unchanged; parts and uploads never listed as objects; uploads isolated; ids gone after complete / abort); distinct = (program shape: uploads, same-key, re-upload, copy-range form, completion validity class); a quarter of the runs: concurrent requests of one upload under rand/PCT schedules (two uploads of one part number, re-upload racing the completion, two uploads of one key completing together); listed ETag, listed size and assembled bytes must belong to one upload"
 }
 func (c08) Runs(tier string) int {
 	if tier == "thorough" {
